@@ -246,11 +246,14 @@ CLAIMED = {
              'trip under explicit json/lzma premises, and the exact breakpoint domain (C16_breakpoints). "Label address = '
              'address of the following statement in the assembled image" is decided by correspondence: generated multi-file '
              'programs with namespaces, reps, label parameters, pad/segment/reserve at w=8..64 assembled by the real assembler, '
-             'addresses recovered from unique op words in the image independently of the table.',
+             'addresses recovered from unique op words in the image independently of the table. Source tie '
+             '(Properties/C16_source.v): the three update_breakpoints_from_* functions are re-translated from the current '
+             'Python source on every run (IR of Model/PyIR.v) and proved to compute exactly Labels.get_breakpoints and to '
+             'print exactly the modelled warnings.',
         design_ref='DESIGN.md section 4, C16',
         note='All declared and segment label names are shown pairwise distinct (C16_names_distinct); JSON/LZMA round-trip laws are '
              'premises. The campaign does not cover stl or wflip-statement programs. F17, N2 fixed.',
-        technique='Coq theorems on the label-table / breakpoint model + image-based correspondence of label addresses'),
+        technique='Coq theorems on the label-table / breakpoint model + Python-source translator with kernel-checked equality to the model + image-based correspondence of label addresses'),
     'C17': dict(
         category='proof',
         text='Qed-closed universal theorems (list induction, no length bound): the Gallina transcription of FixedIO, StandardIO, '
